@@ -129,6 +129,30 @@ theorem stamp_schedule (steps : List SStep) (db : DB) :
 end Shovel.World
 
 namespace Shovel.World
+
+/-- `Inv` looks at this pair's rows and positions only -/
+theorem Inv_congr (t : Task) (c : Chain) (s : Nat) (db v : DB)
+    (hr : v.rows.filter (mine t) = db.rows.filter (mine t)) (hc : v.cur.filter (mineC t) = db.cur.filter (mineC t))
+    (h : Inv t c s db) : Inv t c s v := by
+  unfold Inv at *
+  simp only [hr, hc]
+  exact h
+
+/-- **inv_under_interleaving** (C01 next to other tasks, C04): the exactly-once invariant of one pair — every
+    recorded position is a block of the chain, the rows are exactly the projection of the blocks up to the newest
+    position, each once — survives every schedule of steps by the other pairs, in every committed state the
+    schedule passes through, shared table or not. Together with `inv_step` (this pair's own steps, faulted or
+    not) the invariant holds along any interleaving of the two. -/
+theorem inv_under_interleaving (t : Task) (c : Chain) (s : Nat) (steps : List SStep) (db : DB)
+    (h : ∀ st ∈ steps, otherPair t st.task) (hinv : Inv t c s db) :
+    ∀ v ∈ visited db steps, Inv t c s v := by
+  intro v hv
+  obtain ⟨hr, hc⟩ := isolation_schedule t steps db h v hv
+  exact Inv_congr t c s db v hr hc hinv
+
+end Shovel.World
+
+namespace Shovel.World
 open Ex
 
 /-! non-vacuity: the pair ("s","other") shares source and table with `t1`; `t1` takes a healthy step, a step
@@ -150,6 +174,23 @@ example : ∀ v ∈ visited dbShared sched3,
     intro s hs
     simp only [sched3, List.mem_cons, List.not_mem_nil, or_false] at hs
     rcases hs with rfl | rfl | rfl <;> (intro h; exact absurd h.2 (by decide)))
+
+/-- `inv_under_interleaving` applies: `t1` has indexed blocks 1..2; the other pair then takes a healthy step and a
+    step killed at its second commit (it really writes: the database grows) — `t1`'s invariant holds throughout -/
+def tOther2 : Task := { t1 with ig := "other", table := "tb2" }
+
+def schedOther : List SStep := [⟨tOther2, sc1, some .commit2⟩, ⟨tOther2, sc1, none⟩]
+
+example : (visited (converge t1 {} sc1 none).db schedOther).map (fun d => (d.rows.length, d.cur.length)) =
+    [(2, 1), (2, 1), (2, 1), (2, 1), (4, 2)] := by decide +kernel
+
+example : ∀ v ∈ visited (converge t1 {} sc1 none).db schedOther, Inv t1 c6 (t1.start - 1) v :=
+  inv_under_interleaving t1 c6 _ schedOther _
+    (by intro st hst
+        simp only [schedOther, List.mem_cons, List.not_mem_nil, or_false] at hst
+        rcases hst with rfl | rfl <;> (intro h; exact absurd h.2 (by decide)))
+    (inv_step t1 c6 {} sc1 none c6_wf sc1_ok (by decide) (by decide) (by decide) (by decide) (by decide +kernel)
+      rfl (by decide +kernel) (by decide +kernel)).1
 
 example : dbShared.rows.filter (mine tOther) = [foreign] ∧ dbShared.cur.filter (mineC tOther) = dbShared.cur := by decide +kernel
 
